@@ -1,14 +1,10 @@
-\* C12 quick tier, composition data: 2-D rows on the anti-diagonal x + y = 3 of the 4x4 lattice,
-\* 2..6 rows, k = 2, up to three sweeps.  ShowSwap makes TLC list (INFO lines) the data sets on
-\* which some sweep after the first exchanges members of a cluster without changing its count or
-\* its coordinate total; the harness refits those data sets many times.
 CONSTANTS
     Dim = 3
     Vals = {0, 1, 2, 3}
     MaxN = 6
-    Ks = {2, 3}
-    MaxIters = {3}
-    LCM = 60
+    Ks = {3}
+    MaxIters = {6}
+    FullLayer = TRUE
     RowSum = 3
     ShowSwap = TRUE
     ShowEmpty = FALSE
